@@ -71,7 +71,6 @@ func (w *World) genesisRoundTrip() (res Result) {
 	return Result{Line: "ok " + same, Detail: detail, Dump: w2.dumpModules(bctx)}
 }
 
-
 // reimport restarts the two modules from their own export, in place: export, JSON, wipe the two module stores, InitGenesis of both from
 // the document - what a chain restarted from an export does, with every other module's state carried over. The history then continues
 // on the imported state.
